@@ -17,6 +17,7 @@ import ast2c, spec as specmod
 IGNORED_CLASSES = [  # obligation classes deliberately not part of any claim (DESIGN.md section 3)
     re.compile(r'pointer relation'), re.compile(r'pointer arithmetic'),
 ]
+LEFTOVER_UNWIND = 70   # loops without a contract (none on the unchanged tree) are unwound this far with unwinding assertions: failure = undecided
 
 class Undecided(Exception):
     pass
@@ -98,8 +99,6 @@ class Workspace:
             if k.startswith('__'): continue
             if k not in present: raise Undecided('spec names %s which is not in unit %s (must-fire rule)' % (k, unit['name']))
             fn = [f for f in ex['functions'] if f['cname'] == k]
-            if fn and sp[k]['loops'] and max(sp[k]['loops']) >= fn[0]['loops']:
-                raise Undecided('spec for %s names loop %d but the function has %d loops' % (k, max(sp[k]['loops']), fn[0]['loops']))
         text, used = specmod.splice(text, sp, present)
         path = os.path.join(self.dir, unit['name'] + '.c')
         with open(path, 'w') as f:
@@ -107,7 +106,7 @@ class Workspace:
             for inc in unit.get('include', []): f.write('#include "%s"\n' % os.path.join(VERIF, inc))
             f.write(text)
             f.write('\n#include "%s"\n' % os.path.join(VERIF, unit['harness']))
-        info = {'path': path, 'functions': ex['functions'], 'externals': ex['externals'], 'spec': sp,
+        info = {'path': path, 'functions': ex['functions'], 'externals': ex['externals'], 'spec': sp, 'log': ex.get('log', []),
                 'sha': hashlib.sha256(text.encode()).hexdigest()[:16]}
         self.units[unit['name']] = info
         return info
@@ -160,6 +159,7 @@ def run_job(ws, unit, job, tier):
     cb = ['cbmc', target, '--bounds-check', '--pointer-check', '--signed-overflow-check', '--div-by-zero-check', '--undefined-shift-check',
           '--json-ui', '--trace', '--drop-unused-functions', '--object-bits', str(job.get('object_bits', 10))]
     if job.get('unwind'): cb += ['--unwind', str(job['unwind']), '--unwinding-assertions']
+    elif not job.get('loop_contracts'): cb += ['--unwind', str(LEFTOVER_UNWIND), '--unwinding-assertions']
     solver = job.get('solver', 'minisat')
     if solver == 'kissat': cb += ['--external-sat-solver', 'kissat']
     elif solver == 'cadical': cb += ['--sat-solver', 'cadical']
